@@ -1,7 +1,7 @@
 (* EncodeFacts.v — the packet writer and generate_*_packet_bytes in closed form:
    what is written is exactly spec_packet, followed by the untouched rest of the buffer. *)
 Require Import Base Crc Bitfield Headers Encode Decode Process Ops Spec.
-Require Import BitfieldFacts HeaderFacts HeaderForms IanaForm.
+Require Import BitfieldFacts HeaderFacts HeaderForms IanaForm PecFacts.
 Open Scope N_scope.
 
 (* ---------- sequential writes ---------- *)
@@ -132,7 +132,10 @@ Proof.
   intros Ha Hd Hm. unfold enc_spec. fold (packet_total hdr data).
   destruct (259 <? packet_total hdr data)%nat eqn:E.
   - apply generate_packet_bytes_oversize; [exact Hm | apply Nat.ltb_lt; exact E].
-  - intros Hb. apply generate_packet_bytes_fits; auto. apply Nat.ltb_ge. exact E.
+  - destruct (Nat.leb_spec (packet_total hdr data) (length buf)) as [Hb|Hb].
+    + apply generate_packet_bytes_fits; auto. apply Nat.ltb_ge. exact E.
+    + intros m out Hs. apply PecFacts.generate_packet_bytes_success in Hs as [Hs1 Hs2].
+      rewrite packet_len_total in Hs2. lia.
 Qed.
 
 Lemma enc_spec_ctl ovf addr dest (rq : bool) cmd data buf : addr < 256 -> dest < 256 -> cmd < 256 ->
